@@ -1,6 +1,6 @@
 (* C09 — Capacity limits are enforced at compile time, never by overflow.
    Only statements; proofs in Proofs/Limits.v, EvalTop.v. *)
-Require Import Base Opcode Tables Ops Tree Opt Flat Run CompFacts EvalDefs EvalTop Limits.
+Require Import Base Opcode Tables Ops Tree Opt Flat FlatE Run CompFacts EvalDefs EvalTop Limits.
 Open Scope Z_scope.
 
 (* an accepted tree: its node count is its size and at most the generated limit (32767), every operator has at
